@@ -400,3 +400,125 @@ def inline_helpers(ctx, f, skip=(), depth: int = 2):
     f2.node = node
     cache[k] = f2
     return f2
+
+
+# ------------------------------------------------------------------------------------------ structural self-test inputs
+# (test inputs only: behaviour-preserving / breaking edits expressed on the AST, so that they keep applying when
+# the surrounding text changes; the edited module is re-emitted with ast.unparse)
+def _find_def(tree: ast.Module, qualname: str):
+    cur = tree
+    for part in qualname.split("."):
+        nxt = None
+        for st in cur.body:
+            if isinstance(st, (ast.FunctionDef, ast.AsyncFunctionDef, ast.ClassDef)) and st.name == part:
+                # prefer the last real definition (overload stubs come first)
+                nxt = st
+        if nxt is None:
+            return None, None
+        parent, cur = cur, nxt
+    return cur, parent
+
+
+def ast_edit(qualname: str, *transforms):
+    """Source edit: apply `transform(func_node, owner_node)` (in place) to the named function / method."""
+    def edit(src: str) -> str:
+        from ..report import MutantNotApplicable
+        tree = ast.parse(src)
+        fn, owner = _find_def(tree, qualname)
+        if fn is None:
+            raise MutantNotApplicable(f"{qualname} not found")
+        for t in transforms:
+            if t(fn, owner) is False:
+                raise MutantNotApplicable(f"{getattr(t, '__name__', 'transform')} does not apply to {qualname}")
+        ast.fix_missing_locations(tree)
+        return ast.unparse(tree) + "\n"
+    return edit
+
+
+def _negate(test):
+    if isinstance(test, ast.UnaryOp) and isinstance(test.op, ast.Not):
+        return test.operand
+    return ast.UnaryOp(op=ast.Not(), operand=test)
+
+
+def t_invert_ifs(fn, owner=None):
+    """`if c: A else: B` -> `if not c: B else: A` for every two-armed if (elif chains untouched)"""
+    n = 0
+    for st in ast.walk(fn):
+        if isinstance(st, ast.If) and st.orelse and not (len(st.orelse) == 1 and isinstance(st.orelse[0], ast.If)):
+            st.test, st.body, st.orelse = _negate(st.test), st.orelse, st.body
+            n += 1
+    return n > 0
+
+
+def t_guard_clause(fn, owner=None):
+    """last statement `if c: A else: B` -> `if not c: B; return` followed by A"""
+    last = fn.body[-1]
+    if not (isinstance(last, ast.If) and last.orelse and not (len(last.orelse) == 1 and isinstance(last.orelse[0], ast.If))):
+        return False
+    if any(isinstance(n, ast.Return) and n.value is not None for n in ast.walk(fn)):
+        return False
+    guard = ast.If(test=_negate(last.test), body=list(last.orelse) + [ast.Return(value=None)], orelse=[])
+    fn.body = fn.body[:-1] + [guard] + list(last.body)
+    return True
+
+
+def t_guard_clause_no_return(fn, owner=None):
+    """the broken twin of t_guard_clause: the `return` is forgotten, both arms run"""
+    if t_guard_clause(fn, owner) is False:
+        return False
+    for st in fn.body:
+        if isinstance(st, ast.If) and st.body and isinstance(st.body[-1], ast.Return):
+            st.body = st.body[:-1]
+    return True
+
+
+def t_extract_else(name: str, reverse_first_pair: bool = False):
+    """last statement `if c: A else: B` -> `else: self.<name>(<all parameters>)` with B moved to a new method
+    (optionally with the first 2-tuple literal of B reversed: a broken helper)"""
+    def t(fn, owner):
+        last = fn.body[-1]
+        if not (isinstance(last, ast.If) and last.orelse and isinstance(owner, ast.ClassDef)):
+            return False
+        params = [a.arg for a in fn.args.args]
+        body = last.orelse
+        if reverse_first_pair:
+            tup = next((n for st in body for n in ast.walk(st) if isinstance(n, ast.Tuple) and len(n.elts) == 2
+                        and all(isinstance(e, ast.Name) for e in n.elts)), None)
+            if tup is None:
+                return False
+            tup.elts.reverse()
+        helper = ast.FunctionDef(name=name, args=copy.deepcopy(fn.args), body=body, decorator_list=[], returns=None, type_comment=None)
+        if hasattr(helper, "type_params"):
+            helper.type_params = []
+        call = ast.Expr(value=ast.Call(func=ast.Attribute(value=ast.Name(id=params[0], ctx=ast.Load()), attr=name, ctx=ast.Load()),
+                                       args=[ast.Name(id=p, ctx=ast.Load()) for p in params[1:]], keywords=[]))
+        last.orelse = [call]
+        owner.body.insert(owner.body.index(fn) + 1, helper)
+        return True
+    t.__name__ = f"extract_else({name})"
+    return t
+
+
+def t_alias(expr_text: str, name: str):
+    """bind `name = <expr>` at the top of the function and use the name for every later read of <expr>"""
+    def t(fn, owner=None):
+        want = ast.dump(ast.parse(expr_text, mode="eval").body)
+        hits = 0
+
+        class V(ast.NodeTransformer):
+            def generic_visit(self, node):
+                nonlocal hits
+                node = super().generic_visit(node)
+                if isinstance(node, ast.expr) and isinstance(getattr(node, "ctx", ast.Load()), ast.Load) and ast.dump(node) == want:
+                    hits += 1
+                    return ast.Name(id=name, ctx=ast.Load())
+                return node
+        doc = 1 if fn.body and isinstance(fn.body[0], ast.Expr) and isinstance(fn.body[0].value, ast.Constant) else 0
+        new_body = [V().visit(st) for st in fn.body[doc:]]
+        if not hits:
+            return False
+        fn.body = fn.body[:doc] + [ast.Assign(targets=[ast.Name(id=name, ctx=ast.Store())], value=ast.parse(expr_text, mode="eval").body)] + new_body
+        return True
+    t.__name__ = f"alias({expr_text})"
+    return t
